@@ -378,6 +378,7 @@ def run_file(cfg, name, cases, timeout):
     return res
 
 
+MAX_REPORTS = 200          # violations written out; further failures are only counted
 BAD = ("mismatch", "diag-from-skipped", "diag", "crash", "lost", "asan?", "stray?", "asan", "stray")
 
 
@@ -390,13 +391,14 @@ def run_single(cfg, c, k, timeout, tag="s"):
 
 
 def batch_job(job):
-    cfg, name, cases, timeout = job
+    cfg, name, cases, timeout = job[:4]
+    isolate = job[4] if len(job) > 4 else True
     try:
         res = run_file(cfg, name, cases, timeout)
         out = []
         for k, c in cases:
             v = res[k]
-            if v["status"] in BAD:
+            if v["status"] in BAD and isolate:
                 v = dict(run_single(cfg, c, k, max(timeout, 20)), batch_status=v["status"])
             out.append((k, v))
         only_in_batch = [k for k, v in out if v.get("batch_status") and v["status"] not in BAD]
@@ -458,6 +460,7 @@ def explore(ck):
     dirty = tools.run(["git", "-C", rel["repo"], "status", "--porcelain", "-uno"]).out.strip()
     ck.extra["tree"] = {"path": rel["repo"], "head": head, "modified_files": dirty.splitlines()}
     variants = VARIANTS
+    reported = unreported = 0
     k_next = 1
     completed = {}
     stopped = False
@@ -484,9 +487,13 @@ def explore(ck):
             for c in cases[i:i + bsize]:
                 chunk.append((k_next, c))
                 k_next += 1
-            jobs.append((cfg, "%s_n%d_%05d" % (layer, n, i // bsize), chunk, 60))
+            jobs.append([cfg, "%s_n%d_%05d" % (layer, n, i // bsize), chunk, 60, True])
         wave = 64
         for w in range(0, len(jobs), wave):
+            for job in jobs[w:w + wave]:
+                # once the report cap is reached failing cases are only counted (batch
+                # verdict), no longer isolated, confirmed and written out
+                job[4] = reported < MAX_REPORTS
             if ck.expired(reserve=20):
                 ck.cap("deadline: layer %s stopped inside n=%d after %d of %d cases"
                        % (layer, n, w * bsize, len(cases)))
@@ -506,11 +513,21 @@ def explore(ck):
                             family=layer,
                             sample={"case": c, "expected": v["expected"], "observed": v["observed"]})
                     if status in BAD:
-                        report(ck, cfg, c, k, v)
+                        if reported < MAX_REPORTS:
+                            reported += 1
+                            report(ck, cfg, c, k, v)
+                        else:
+                            unreported += 1
         else:
             completed[layer] = n
         print("C09: layer %s, n=%d: %s; %d cases so far, %.0f s"
               % (layer, n, "cut" if stopped else "done", ck.evaluations, ck.elapsed()), flush=True)
+    if unreported:
+        print("C09: %d further failing cases were counted but not written out" % unreported,
+              flush=True)
+        ck.violations.append({"key": "(unreported)", "what": "%d further failing cases" % unreported,
+                              "replay": None})
+        ck.extra["unreported_failures"] = unreported
     return ck.finish(
         rule="one case = one well-nested directive sequence x macro-state variant, run through "
              "parse_file -E and gcc -E -P; non-trivial = at least one group skipped and at least "
